@@ -14,7 +14,7 @@ from harness.c05 import to_plain
 PID = "C18"
 FILES = ["yamlpath/commands/yaml_merge.py", "yamlpath/merger/merger.py", "yamlpath/merger/mergerconfig.py",
          "yamlpath/merger/enums/multidocmodes.py"]
-FUNCTIONS = ["yaml_merge.merge_condense_all", "yaml_merge.merge_across", "yaml_merge.merge_matrix",
+FUNCTIONS = ["yaml_merge.merge_condense_all", "yaml_merge.merge_across", "yaml_merge.merge_matrix", "(incl. their failure states)",
              "Merger.merge_with (pairwise step, default policies)"]
 STUBS = ["document loading (get_doc_mergers / ruamel) is replaced by Mergers built directly from harness documents"]
 OUTSIDE = ["streams longer than the stated lengths; policies other than the defaults (C05 covers the pairwise step)",
@@ -120,6 +120,45 @@ def multidoc(mode: str, nl: int, nr: int, a: int, b: int, c: int, d: int, el: in
     return True
 
 
+def multidoc_fail(mode: str, nl: int, nr: int, jr: int, il: int, a: int) -> bool:
+    """A refused pairwise merge anywhere in the streams is reported by a non-zero state, whatever follows it."""
+    ldocs = [cmap(("h", cseq(i)), ("n", i)) if i == il else cmap(("h", cmap(("p", a))), ("n", i)) for i in range(nl)]
+    rdocs = [cmap(("h", cseq(j))) if j == jr else cmap(("h", cmap(("q", j)))) for j in range(nr)]
+    cfg = MergerConfig(LOG, SimpleNamespace(config=None, mergeat="/"))
+    lhs = [Merger(LOG, x, cfg) for x in ldocs]
+    rhs = [Merger(LOG, x, cfg) for x in rdocs]
+    fn = {"condense": ym.merge_condense_all, "across": ym.merge_across, "matrix": ym.merge_matrix}[mode]
+    rc = fn(LOG, lhs, rhs)
+    if mode == "condense":
+        refused = jr >= 0 or il >= 1
+    elif mode == "across":
+        refused = 0 <= jr < nl
+    else:
+        refused = jr >= 0
+    note(mode=mode, left=[to_plain(x) for x in ldocs], right=[to_plain(x) for x in rdocs], return_code=rc,
+         a_pairwise_merge_is_refused=refused)
+    return (rc != 0) == refused
+
+
+def multidoc_fail_left(mode: str, nl: int, nr: int, ml: int, a: int) -> bool:
+    """Refusals that depend on the LEFT document: a later successful merge must not clear an earlier failure."""
+    ml = realize(ml)
+    is_arr = [bool((ml >> i) & 1) for i in range(nl)]
+    ldocs = [cmap(("h", cseq(a)), ("n", i)) if is_arr[i] else cmap(("h", cmap(("p", a))), ("n", i)) for i in range(nl)]
+    rdocs = [cmap(("h", cseq(j))) for j in range(nr)]
+    cfg = MergerConfig(LOG, SimpleNamespace(config=None, mergeat="/"))
+    lhs = [Merger(LOG, x, cfg) for x in ldocs]
+    rhs = [Merger(LOG, x, cfg) for x in rdocs]
+    rc = (ym.merge_across if mode == "across" else ym.merge_matrix)(LOG, lhs, rhs)
+    if mode == "across":
+        refused = any(not is_arr[i] for i in range(min(nl, nr)))
+    else:
+        refused = any(not x for x in is_arr)
+    note(mode=mode, left=[to_plain(x) for x in ldocs], right=[to_plain(x) for x in rdocs], return_code=rc,
+         a_pairwise_merge_is_refused=refused)
+    return (rc != 0) == refused
+
+
 def _keys_ok(g, w):
     return set(g.keys()) == set(w.keys())
 
@@ -144,4 +183,17 @@ def shards(tier, seed):
                                  desc="%s: %d left x %d right documents; empty document at left %d / right %d (-1 = none)" % (
                                      mode, nl, nr, el, er),
                                  bounds={"a..d": ldesc}))
+    for mode in ("condense", "across", "matrix"):
+        out.append(shard(PID, "%s/refused" % mode, "harness.c18", "multidoc_fail(%r, nl, nr, jr, il, a)" % mode,
+                         [("nl", "int"), ("nr", "int"), ("jr", "int"), ("il", "int"), ("a", "int")],
+                         ["1 <= nl <= 3 and 1 <= nr <= 3", "-1 <= jr < nr", "il == -1" if mode != "condense" else "(il == -1 or 1 <= il < nl)",
+                          "-9 <= a <= 9"], family=mode, budget=900,
+                         desc="%s: one document (symbolic position, either stream) cannot be merged (array into hash): the "
+                              "state is non-zero exactly when a pairwise merge is refused, wherever it sits" % mode))
+    for mode in ("across", "matrix"):
+        out.append(shard(PID, "%s/refused_left" % mode, "harness.c18", "multidoc_fail_left(%r, nl, nr, ml, a)" % mode,
+                         [("nl", "int"), ("nr", "int"), ("ml", "int"), ("a", "int")],
+                         ["1 <= nl <= 3 and 1 <= nr <= 2", "0 <= ml < 8", "-9 <= a <= 9"], family=mode, budget=900,
+                         desc="%s: every right document holds an array where SOME left documents (symbolic subset) hold a hash: "
+                              "the state is non-zero exactly when some pairwise merge is refused, also when later ones succeed" % mode))
     return out
